@@ -823,6 +823,28 @@ Section ConsumerProofs.
         split; [assumption|]. rewrite H2, Hsp. now rewrite <- app_assoc.
   Qed.
 
+  (* a response that completes the call at once: whatever is reported for the transaction (nothing at
+     all for an unknown operation), the call completes at the response, once *)
+  Theorem cons_completing pre post s0 rst :
+    fresh id s0 -> noresp id pre = true -> noresp id post = true -> completing rst = true ->
+    (count_parts pre <= cap)%nat ->
+    let s' := crun s0 (pre ++ CResp id rst :: post) in
+    aget id (c_pend s') = None /\
+    done_of id s' = [mkCR rst rst true (if kp then own_parts id pre else [])].
+  Proof.
+    intros (F1 & F2 & F3) Hn1 Hn2 Hcp Hc s'. unfold s'. rewrite crun_app.
+    assert (HP : P1 s0 [] 0). { split; [assumption|]. split; [assumption|]. exists (c_recent s0), []. rewrite app_nil_r. auto. }
+    apply (phase1 pre) in HP; auto. simpl in HP.
+    set (s1 := crun s0 pre) in *.
+    destruct HP as (Hp & Hd & old & app & Hr & Hoo & Ha & Hl).
+    change (crun s1 (CResp id rst :: post)) with (crun (cstep s1 (CResp id rst)) post).
+    assert (Hown : own id (c_recent s1) = own_parts id pre).
+    { rewrite Hr, own_app, Hoo, Ha. reflexivity. }
+    simpl. rewrite Hown, Hcp.
+    match goal with |- context [crun ?s post] => destruct (caseA post s) as [H1 H2]; auto end.
+    split; [assumption|]. rewrite H2, done_of_snoc, Hd, Z.eqb_refl. reflexivity.
+  Qed.
+
   (* --- the same for every interleaving *)
   Lemma before_resp_split pre rst post :
     noresp id pre = true -> before_resp id (pre ++ CResp id rst :: post) = pre.
